@@ -1321,6 +1321,18 @@ func main() {
 			ents = append(ents, fmt.Sprintf("  (* %s %s *)\n  (bs \"%s\",\n   [%s])", sf[1], sf[2], sf[0], strings.Join(ts, ";\n    ")))
 		}
 		fmt.Fprintf(&sw, "Definition sync_skeleton : list (bytes * list bytes) := [\n%s].\n", strings.Join(ents, ";\n"))
+		var oents []string
+		for _, sf := range openFuncs {
+			var ts []string
+			for _, t := range skeletonOfD(sf[1], sf[2], true) {
+				if strings.ContainsAny(t, "\"\\") {
+					die("skeleton token with a quote: %s", t)
+				}
+				ts = append(ts, "bs \""+t+"\"")
+			}
+			oents = append(oents, fmt.Sprintf("  (* %s %s *)\n  (bs \"%s\",\n   [%s])", sf[1], sf[2], sf[0], strings.Join(ts, ";\n    ")))
+		}
+		fmt.Fprintf(&sw, "\n(* the Open functions (C10: the transport is closed in every failure case) *)\nDefinition open_skeleton : list (bytes * list bytes) := [\n%s].\n", strings.Join(oents, ";\n"))
 		sp := filepath.Join(filepath.Dir(*out), "GeneratedSkel.v")
 		olds, _ := os.ReadFile(sp)
 		if !bytes.Equal(olds, sw.Bytes()) {
